@@ -190,8 +190,8 @@ def imm_container(c, n, pkg, qual, handles):
         "ctor1": "func NewT(%s) {" % params,
         "ctor2": "func MakeT(%s) {" % params,
         "other": "func fn%d(%s) {" % (n, params),
-        "pmeth": "func (r *T) m%d(%s) {" % (n, params),
-        "vmeth": "func (r T) m%d(%s) {" % (n, params),
+        "pmeth": "func (r %s) m%d(%s) {" % (type_expr(c["sp"], True, "") if c["via"] == "r" else "*T", n, params),
+        "vmeth": "func (r %s) m%d(%s) {" % (type_expr(c["sp"], False, "") if c["via"] == "r" else "T", n, params),
         "cmeth": "func (r *C) m%d() {" % n,
         "ometh": "func (o%d *O) m%d(%s) {" % (n, n, params),
         "init": "func init() {",
@@ -319,9 +319,11 @@ def ctor_ann(ann):
 
 def ctor_container(c, n, pkg, qual, handles):
     sp = c.get("sp", "direct")
-    t = {"direct": qual + "T", "rename": qual + "T", "alias": "TA", "alias3": "q.TA", "chain": "TA2", "paren": "(" + qual + "T)", "fnalias": "R"}[sp]
+    t = {"direct": qual + "T", "rename": qual + "T", "alias": "TA", "alias3": "q.TA", "chain": "TA2", "ptralias": "TP", "paren": "(" + qual + "T)", "fnalias": "R"}[sp]
     k = c["kind"]
     tmpl = CTOR_STMT[c["stmt"]][1 if k == "pkgdecl" else 0]
+    if sp == "ptralias":
+        tmpl = tmpl.replace("*%(t)s", "TP")
     stmt = tmpl % {"t": t, "n": n, "q": qual}
     fnpre = []
     if sp == "fnalias":
